@@ -33,6 +33,11 @@ DInit ==
   /\ nsub = [x \in Threads \X Kinds |-> 0] /\ nexec = [t \in Tasks |-> 0] /\ lastExec = [x \in Threads \X Kinds |-> 0]
   /\ cancelled = {} /\ fifoOk = TRUE /\ threadOk = TRUE
 
+\* The library defers work of its own through the same queues (e.g. a finished one-shot timer - the exit timer - is freed by a deferred task).
+\* Such tasks (numbers from 1000) count in every queue length the hooks report, but their execution is not observable: they are
+\* presumed executed when the code moves on to the next batch, and the properties of C01 speak about the user's callables only.
+IsInt(t) == t >= 1000
+OnlyInt(s) == \A i \in 1..Len(s) : IsInt(s[i])
 Range(s) == {s[i] : i \in 1..Len(s)}
 Without(s, x) == SelectSeq(s, LAMBDA y : y # x)
 Pending == Range(qIn) \cup Range(qNext) \cup Range(batch) \cup Range(drainN) \cup Range(drainI)
@@ -58,28 +63,28 @@ DStartLocked(n, wrote) ==
   /\ UNCHANGED <<qIn, qNext, batch, drainN, drainI, alive, kind, by, seqno, nsub, nexec, lastExec, cancelled, fifoOk, threadOk>>
 (* ---- handleRunInLoopFunc(), the eventfd is readable, under lock_: "loop.swap.in"(batch size, left) ---- *)
 DSwapIn(n, left) ==
-  /\ running /\ efd > 0 /\ batch = <<>> /\ batch' = qIn /\ qIn' = <<>> /\ n = Len(qIn) /\ left = 0 /\ efd' = 0 /\ hasReq' = FALSE
+  /\ running /\ efd > 0 /\ OnlyInt(batch) /\ batch' = qIn /\ qIn' = <<>> /\ n = Len(qIn) /\ left = 0 /\ efd' = 0 /\ hasReq' = FALSE
   /\ UNCHANGED <<qNext, drainN, drainI, running, alive, kind, by, seqno, nsub, nexec, lastExec, cancelled, fifoOk, threadOk>>
 (* ---- handleNextFunc(): "loop.swap.next"(batch size, left) ---- *)
 DSwapNext(n, left) ==
-  /\ running /\ batch = <<>> /\ batch' = qNext /\ qNext' = <<>> /\ n = Len(qNext) /\ left = 0
+  /\ running /\ OnlyInt(batch) /\ batch' = qNext /\ qNext' = <<>> /\ n = Len(qNext) /\ left = 0
   /\ UNCHANGED <<qIn, drainN, drainI, hasReq, efd, running, alive, kind, by, seqno, nsub, nexec, lastExec, cancelled, fifoOk, threadOk>>
 (* ---- cleanupDeferredTasks(), one generation: "loop.drain.gen"(next tasks, in-loop tasks) ---- *)
 DDrainGen(nn, ni) ==
-  /\ drainN = <<>> /\ drainI = <<>> /\ drainN' = qNext /\ drainI' = qIn /\ qNext' = <<>> /\ qIn' = <<>>
+  /\ OnlyInt(drainN) /\ OnlyInt(drainI) /\ drainN' = qNext /\ drainI' = qIn /\ qNext' = <<>> /\ qIn' = <<>>
   /\ nn = Len(qNext) /\ ni = Len(qIn) /\ nn + ni > 0
   /\ UNCHANGED <<batch, hasReq, efd, running, alive, kind, by, seqno, nsub, nexec, lastExec, cancelled, fifoOk, threadOk>>
 (* ---- a deferred task is invoked ---- *)
 \* the batch that is being executed: the swapped batch, else the local batches of the current drain generation
-CurBatch == IF batch # <<>> THEN batch ELSE IF drainN # <<>> THEN drainN ELSE drainI
+CurBatch == IF ~OnlyInt(batch) THEN batch ELSE IF ~OnlyInt(drainN) THEN drainN ELSE drainI
 NextUp == IF CurBatch = <<>> THEN 0 ELSE Head(CurBatch)         \* what the code runs next (it works through a batch front to back)
 \* C01 fixes the order only among the submissions of one thread through one entry point: any member of the current batch may run
 \* as long as no earlier member of that batch comes from the same thread and queue (checked through fifoOk as well)
 Runnable(t) == \E i \in 1..Len(CurBatch) : CurBatch[i] = t /\ \A j \in 1..(i - 1) : <<by[CurBatch[j]], kind[CurBatch[j]]>> # <<by[t], kind[t]>>
 DExec(t, onLoopThread) ==
-  /\ t # 0 /\ Runnable(t)
-  /\ IF batch # <<>> THEN batch' = Without(batch, t) /\ UNCHANGED <<drainN, drainI>>
-     ELSE IF drainN # <<>> THEN drainN' = Without(drainN, t) /\ UNCHANGED <<batch, drainI>>
+  /\ t # 0 /\ ~IsInt(t) /\ Runnable(t)
+  /\ IF ~OnlyInt(batch) THEN batch' = Without(batch, t) /\ UNCHANGED <<drainN, drainI>>
+     ELSE IF ~OnlyInt(drainN) THEN drainN' = Without(drainN, t) /\ UNCHANGED <<batch, drainI>>
      ELSE drainI' = Without(drainI, t) /\ UNCHANGED <<batch, drainN>>
   /\ nexec' = [nexec EXCEPT ![t] = @ + 1]
   /\ LET x == <<by[t], kind[t]>> IN
@@ -112,6 +117,6 @@ FifoPerSubmitter == fifoOk
 NoLostWakeup == (running /\ qIn # <<>>) => efd > 0
 ReqConsistent == (hasReq => running /\ efd > 0) /\ (~running => efd = 0)
 \* evaluated when the loop object is gone: nothing was dropped
-NothingDropped == ~alive => \A t \in Tasks : kind[t] # "none" => (nexec[t] = 1 \/ t \in cancelled)
-ExactlyOncePending == \A t \in Tasks : (kind[t] # "none" /\ t \notin cancelled /\ nexec[t] = 0) => t \in Pending
+NothingDropped == ~alive => \A t \in Tasks : (kind[t] # "none" /\ ~IsInt(t)) => (nexec[t] = 1 \/ t \in cancelled)
+ExactlyOncePending == \A t \in Tasks : (kind[t] # "none" /\ ~IsInt(t) /\ t \notin cancelled /\ nexec[t] = 0) => t \in Pending
 =============================================================================
